@@ -21,7 +21,7 @@ import sys
 
 import numpy as np
 
-from mc.common import Check, Fail, SEED, THOROUGH, assert_overlay
+from mc.common import Check, Explorer, Fail, SEED, THOROUGH, assert_overlay, digest
 
 am = assert_overlay()
 EC = am.ElasticConstants
@@ -33,7 +33,9 @@ chk = Check('C11', 'exploration',
             'rotation, strain energy of 21 co-rotated strains, Voigt/Reuss/Hill bulk and shear, inverse}; composition transform(A).transform(B) = '
             'transform(B A) for every ordered pair of rotations (quick: the dense general matrices; thorough: all general and isotropic tensors and the quick grid of every crystal system).  evaluations = transform() calls + '
             'representation conversions + constructor calls; distinct_nontrivial = distinct (tensor, rotation) pairs whose rotated tensor differs from the '
-            'original by more than 1e-6 max|C| plus distinct tensors')
+            'original by more than 1e-6 max|C| plus distinct tensors.  Plus an explicit-state BFS over histories (depth <= 3 quick / 4 thorough) of '
+            'reads and writes on ONE live object (5 getters, 6 moduli, transform, normalized_as, is_normal, model, 5 setters x 3 tensors, cubic()), '
+            'states distinct by (tensor last written, byte-exact internal state of the real object)')
 chk.assumptions = [
     'representation round trips and symmetries compared to 1e-9 max|C| (the class itself zeroes |C| < 1e-9 max); menu entries are exactly 0 or >= 1e-3 max|C|',
     'transform() zeroes entries below tol=1e-8 max (documented default); one transform is compared to 2e-8 max|C|, chains of two to 1.2e-7 max|C| '
@@ -772,6 +774,154 @@ def normalize(case):
     return fails
 
 
+
+# ---------------------------------------------------------------------------
+# explicit-state search over ONE live ElasticConstants object
+#
+# A state is reached by replaying a history of reads (every representation getter, the six moduli, transform,
+# normalized_as, is_normal, model) and writes (every representation setter and the crystal-system setters, for
+# each tensor of a small menu) on a fresh real object.  The reference model is the index of the tensor last
+# written.  States are merged only when the model state AND the complete internal state of the real object
+# (vars(), byte for byte) coincide, so an implementation that starts caching a derived representation simply
+# has more states, all of which are explored: every read must return the oracle expansion of the model tensor
+# whatever was read or written before (this is what "every representation describes the same law" means for
+# an object that lives longer than one call).
+
+HT = None
+
+
+def _history_menu():
+    global HT
+    if HT is None:
+        dense = [c for name, c in GENERAL if name.startswith('dense')]
+        cub = dict(C11=170.0, C12=70.0, C44=77.0)
+        HT = [('general', dense[0], None), ('general', dense[1], None),
+              ('cubic', full6_cubic(cub), cub)]
+    return HT
+
+
+def full6_cubic(kw):
+    c = np.zeros((6, 6))
+    for i in range(3):
+        c[i, i] = kw['C11']
+        c[i + 3, i + 3] = kw['C44']
+        for j in range(3):
+            if i != j:
+                c[i, j] = kw['C12']
+    return c
+
+
+H_GET = ['Cij', 'Sij', 'Cij9', 'Cijkl', 'Sijkl']
+H_ROT = [3, len(ROTS) - 1]
+H_NORM = ['cubic', 'isotropic', 'rhombohedral']
+
+
+def h_ops(state):
+    out = [{'op': 'get', 'what': w} for w in H_GET]
+    out += [{'op': 'mod', 'what': w, 'style': st} for w in ('bulk', 'shear') for st in ('Voigt', 'Reuss', 'Hill')]
+    out += [{'op': 'transform', 'r': r} for r in H_ROT]
+    out += [{'op': 'normalized_as', 'system': sy} for sy in H_NORM]
+    out += [{'op': 'is_normal'}, {'op': 'model'}]
+    for t in range(len(_history_menu())):
+        out += [{'op': 'set', 'what': w, 't': t} for w in H_GET]
+    out += [{'op': 'named', 't': 2}]
+    return out
+
+
+def _expect(C0, what):
+    if what == 'Cijkl':
+        return C0
+    if what == 'Cij9':
+        return nine_from_full(C0)
+    if what == 'Cij':
+        return np.array([[C0[PAIR[I] + PAIR[J]] for J in range(6)] for I in range(6)])
+    S0 = compliance_full(C0)
+    return S0 if what == 'Sijkl' else compliance_voigt_from_full(S0)
+
+
+def _h_tol(C0, what):
+    cond = np.linalg.cond(mandel_from_full(C0))
+    if what.startswith('S'):
+        return 1e-8 * np.abs(compliance_full(C0)).max() * max(1.0, cond / 10)
+    return 1e-8 * np.abs(C0).max() * max(1.0, cond / 10)
+
+
+def h_build(history):
+    menu = _history_menu()
+    ec = EC(Cij=menu[0][1].copy())
+    model = 0
+    fails = []
+    for step, op in enumerate(history):
+        C0 = full_from_voigt(menu[model][1])
+        if op['op'] == 'get':
+            got = getattr(ec, op['what'])
+            exp = _expect(C0, op['what'])
+            if np.shape(got) != exp.shape or not close(got, exp, _h_tol(C0, op['what'])):
+                fails.append(Fail(key='read-%s-after-history' % op['what'],
+                                  msg='%s read after %s is not the representation of the tensor last written' % (op['what'], [h['op'] + ':' + str(h.get('what', '')) for h in history[:step]])))
+            else:
+                got[...] = -7.0       # a returned array must not be live storage of the object
+        elif op['op'] == 'mod':
+            v = getattr(ec, op['what'])(op['style'])
+            e = moduli_from_full(C0)[op['what']][op['style']]
+            if abs(v - e) > 1e-6 * np.linalg.cond(mandel_from_full(C0)) * abs(e):
+                fails.append(Fail(key='%s-%s-after-history' % (op['what'], op['style']), msg='%s(%r)=%s, tensor invariant %s' % (op['what'], op['style'], v, e)))
+        elif op['op'] == 'transform':
+            label, axes, T = ROTS[op['r']]
+            got = ec.transform(axes).Cijkl
+            exp = rot4(C0, T)
+            if not close(got, exp, 2e-7 * np.abs(C0).max()):
+                fails.append(Fail(key='transform-after-history', msg='transform(%s) after a history is not the tensor rotation' % label))
+        elif op['op'] == 'normalized_as':
+            n1 = ec.normalized_as(op['system'])
+            if not close(n1.normalized_as(op['system']).Cij, n1.Cij, 4e-8 * np.abs(C0).max()):
+                fails.append(Fail(key='normalized_as-%s-not-idempotent-after-history' % op['system'], msg='normalized_as twice differs from once'))
+        elif op['op'] == 'is_normal':
+            r = ec.is_normal('cubic')
+            if bool(r) != (menu[model][0] == 'cubic'):
+                fails.append(Fail(key='is_normal-after-history', msg='is_normal("cubic")=%s for a %s tensor' % (r, menu[model][0])))
+        elif op['op'] == 'model':
+            back = EC(model=ec.model())
+            if not close(back.Cijkl, C0, 1e-8 * np.abs(C0).max()):
+                fails.append(Fail(key='model-after-history', msg='model() round trip gives another tensor'))
+        elif op['op'] == 'set':
+            C1 = full_from_voigt(menu[op['t']][1])
+            setattr(ec, op['what'], _expect(C1, op['what']).copy())
+            model = op['t']
+        elif op['op'] == 'named':
+            ec.cubic(**menu[op['t']][2])
+            model = op['t']
+    return {'ec': ec, 'model': model, 'fails': fails}
+
+
+def _internal(ec):
+    out = []
+    for k, v in sorted(vars(ec).items()):
+        a = np.asarray(v) if v is not None else None
+        out.append((k, None if a is None else (str(a.dtype), a.shape, a.tobytes().hex())))
+    return out
+
+
+def h_canon(state):
+    return digest([state['model'], _internal(state['ec'])])
+
+
+def h_check(history, state):
+    fails = list(state['fails'])
+    if fails:
+        return fails
+    import copy
+    ec = copy.deepcopy(state['ec'])           # the invariant reads must not disturb the explored object
+    C0 = full_from_voigt(_history_menu()[state['model']][1])
+    chk.note('representation-conversions', 5)
+    for order in (H_GET, H_GET[::-1]):
+        for what in order:
+            got = getattr(ec, what)
+            exp = _expect(C0, what)
+            if np.shape(got) != exp.shape or not close(got, exp, _h_tol(C0, what)):
+                return [Fail(key='state-%s' % what, msg='in the state reached, %s is not the representation of the tensor last written (model tensor %d)' % (what, state['model']))]
+    return []
+
 def selftest():
     """the fast oracle rotation equals the 8-fold index loop; Voigt maps are mutually consistent."""
     C = full_from_voigt(GENERAL[-2][1])
@@ -814,10 +964,14 @@ def gen():
 if __name__ == '__main__':
     selftest()
     chk.extra['rejected_not_positive_definite'] = N_REJECTED
+    ex = Explorer(chk, 'history', h_build, h_ops, h_check, h_canon, max_depth=4 if THOROUGH else 3)
+    hist_cov = ex.run()
     chk.run_cases(gen(), batch=4)
     n = chk.notes
     ev = n.get('transforms', 0) + n.get('representation-conversions', 0) + n.get('constructor-calls', 0) + n.get('normalizations', 0)
     dn = n.get('tensor-rotation-pairs-that-change-the-tensor', 0) + len(tensor_list())
     sys.exit(chk.finish({'evaluations': ev, 'distinct_nontrivial': dn, 'calls_cases': sum(chk.counts.values()),
                          'tensors': len(tensor_list()), 'rotations': len(ROTS),
-                         'constant_sets_rejected_not_positive_definite': N_REJECTED}))
+                         'constant_sets_rejected_not_positive_definite': N_REJECTED,
+                         'history_states': hist_cov['states'], 'history_transitions': hist_cov['transitions'],
+                         'history_max_depth_completed': hist_cov['max_depth_completed']}))
